@@ -1,7 +1,323 @@
 package c32
 
-import "verif/harness/hx"
+// c32.go: the driver. One VBFT ledger on disk; a chain of headers is grown through
+// LedgerStoreImp.AddHeaders (each step possibly carrying a new chain configuration), and at every
+// chain tip forged and honest candidate headers are run through the real verifyHeader
+// (VerifC32VerifyHeader). Every call becomes a correspondence case (store snapshot, header,
+// error code, peer map afterwards) and is judged by the direct oracle in oracle.go.
+
+import (
+	"encoding/json"
+	"fmt"
+	"path/filepath"
+	"strings"
+
+	"github.com/ontio/ontology/common"
+	"github.com/ontio/ontology/core/payload"
+	"github.com/ontio/ontology/core/signature"
+	"github.com/ontio/ontology/core/types"
+
+	"verif/harness/hx"
+)
 
 func init() { hx.Register("C32", Run) }
 
-func Run(c *hx.Ctx) {}
+type pendingCase struct {
+	term string
+	desc interface{}
+}
+
+type run struct {
+	c      *hx.Ctx
+	e      *env
+	defs   coqDefs
+	st     string // name of the current store definition
+	cases  []pendingCase
+	probes bool
+}
+
+// scenario is the replayable failing input: the state-changing operations that led to the store,
+// then the operation judged.
+type scenario struct {
+	History []step  `json:"history"`
+	Op      string  `json:"op"`
+	Header  hdrSpec `json:"header"`
+}
+
+func (r *run) emit(term string, desc interface{}) { r.cases = append(r.cases, pendingCase{term, desc}) }
+
+// errCode projects an error of verifyHeader / AddHeaders / VerifyMultiSignature to the enum of Corr/C32.v.
+func errCode(err error, panicked bool) string {
+	if panicked {
+		return "KPanic"
+	}
+	if err == nil {
+		return "KOk"
+	}
+	m := err.Error()
+	switch {
+	case strings.Contains(m, "not equal next header height"):
+		return "KWrongNextHeight"
+	case strings.Contains(m, "cannot find pre header by blockHash"):
+		return "KPrevMissing"
+	case strings.Contains(m, "block height is incorrect"):
+		return "KHeight"
+	case strings.Contains(m, "block timestamp is incorrect"):
+		return "KTime"
+	case strings.Contains(m, "unmarshal blockInfo"):
+		return "KPayload"
+	case strings.Contains(m, "cannot find chain config header by height"):
+		return "KCfgHeaderMissing"
+	case strings.Contains(m, "cannot find newchainconfig header by height"):
+		return "KNoNewCfg"
+	case strings.Contains(m, "chainconfig height:") && strings.Contains(m, "not found"):
+		return "KPeerMapMissing"
+	case strings.Contains(m, "more than 6/7 len vbftPeerInfo"):
+		return "KFewListed"
+	case strings.Contains(m, "verify header error: invalid pubkey"):
+		return "KNonMember"
+	case strings.Contains(m, "verify header error height:"):
+		return "KFewDistinct"
+	case strings.Contains(m, "not enough signatures in multi-signature"):
+		return "KSigNotEnough"
+	case strings.Contains(m, "invalid signature data"):
+		return "KSigBad"
+	case strings.Contains(m, "multi-signature verification failed"):
+		return "KSigFailed"
+	}
+	return "KOther"
+}
+
+// storeDef (re)defines the Coq store after the peer map changed without a header being added.
+func (r *run) syncPeers() {
+	now := r.e.observePeers()
+	if !peersEqual(now, r.e.peers) {
+		r.e.peers = now
+		r.st = r.defs.add(fmt.Sprintf("with_peers %s %s", coqPeers(now), r.st))
+	}
+}
+
+// doVerify runs verifyHeader on the header of spec against the current store.
+func (r *run) doVerify(sp hdrSpec, tag string) (accepted bool) { return r.doVerifyVia(sp, tag, "verify") }
+
+// doAddBlock offers a one-transaction block with this header and a wrong state root to
+// Ledger.AddBlock: verifyHeader runs (and may write the peer map), then the block is refused.
+func (r *run) doAddBlock(sp hdrSpec, tag string) (accepted bool) { return r.doVerifyVia(sp, tag, "addblock") }
+
+func (r *run) doVerifyVia(sp hdrSpec, tag string, via string) (accepted bool) {
+	c, e := r.c, r.e
+	h, m := e.build(&sp)
+	var err error
+	var panicked bool
+	var pmsg string
+	if via == "addblock" {
+		tx, terr := (&types.MutableTransaction{TxType: types.InvokeNeo, Nonce: 7, GasLimit: 20000,
+			Payload: &payload.InvokeCode{Code: []byte{0x00}}}).IntoImmutable()
+		if terr != nil {
+			panic(terr)
+		}
+		blk := &types.Block{Header: h, Transactions: []*types.Transaction{tx}}
+		var bogus common.Uint256
+		for i := range bogus {
+			bogus[i] = 0xee
+		}
+		panicked, pmsg = hx.Recover(func() { err = e.ldg.AddBlock(blk, nil, bogus) })
+		if e.ldg.GetCurrentBlockHeight() != 0 {
+			c.Fail("harness:addblock-saved", "the probe block was saved", sp, e.ldg.GetCurrentBlockHeight(), 0)
+		}
+		if err != nil && !strings.Contains(err.Error(), "verifyHeader error") {
+			c.Note("AddBlock probe refused after verifyHeader: " + err.Error())
+			err = nil // verifyHeader itself accepted
+		} else if err == nil && !panicked {
+			c.Fail("harness:addblock-saved", "the probe block was accepted", sp, "nil", "state merkle root mismatch")
+		}
+	} else {
+		panicked, pmsg = hx.Recover(func() { err = e.store.VerifC32VerifyHeader(h) })
+	}
+	c.Eval()
+	code := errCode(err, panicked)
+	c.Count(via + ":" + code)
+	c.Count("gen:" + tag)
+	if code == "KOther" {
+		c.Note("unmapped verifyHeader result: " + fmt.Sprint(err, pmsg))
+	}
+	before := r.st
+	after := e.observePeers()
+	sc := scenario{History: append([]step{}, e.history...), Op: via, Header: sp}
+	r.emit(fmt.Sprintf("(CVerify %s %s %s %s)", before, coqHeader(m), code, coqPeers(after)), sc)
+	r.classCase(before, &sp, m)
+	r.oracle(&sp, h, m, err == nil && !panicked, sc)
+	switch code {
+	case "KOk", "KFewListed", "KNonMember", "KFewDistinct", "KSigNotEnough", "KSigBad", "KSigFailed":
+		b, _ := json.Marshal(sp)
+		c.Nontrivial(string(b))
+	}
+	if !peersEqual(after, e.peers) {
+		e.history = append(e.history, step{Op: via, Spec: sp})
+	}
+	r.syncPeers()
+	return err == nil && !panicked
+}
+
+// doAdd runs AddHeaders([h]) and, when accepted, extends the shadow chain.
+func (r *run) doAdd(sp hdrSpec, tag string) (accepted bool) {
+	c, e := r.c, r.e
+	h, m := e.build(&sp)
+	var err error
+	panicked, pmsg := hx.Recover(func() { err = e.store.AddHeaders([]*types.Header{h}) })
+	c.Eval()
+	code := errCode(err, panicked)
+	c.Count("add:" + code)
+	c.Count("gen:" + tag)
+	if code == "KOther" {
+		c.Note("unmapped AddHeaders result: " + fmt.Sprint(err, pmsg))
+	}
+	before := r.st
+	after := e.observePeers()
+	tip := e.store.GetCurrentHeaderHeight()
+	indexed := false
+	if got, gerr := e.store.GetHeaderByHeight(sp.Height); gerr == nil && got != nil && got.Hash() == h.Hash() {
+		indexed = true
+	}
+	sc := scenario{History: append([]step{}, e.history...), Op: "add", Header: sp}
+	r.emit(fmt.Sprintf("(CAdd %s %s %s %d %s %s)", before, coqHeader(m), code, tip, coqPeers(after), hx.CoqBool(indexed)), sc)
+	r.classCase(before, &sp, m)
+	ok := err == nil && !panicked
+	r.oracle(&sp, h, m, ok, sc)
+	if ok {
+		if int(sp.Height) != len(e.chain) {
+			c.Fail("add:height-gap", "AddHeaders accepted a header that is not the next one", sc, tip, len(e.chain))
+			return ok
+		}
+		e.chain = append(e.chain, &chainEnt{real: h, m: m})
+		e.history = append(e.history, step{Op: "add", Spec: sp})
+		e.peers = after
+		r.st = r.defs.add(fmt.Sprintf("push_header %s %s %s", coqHeader(m), coqPeers(after), before))
+	} else {
+		r.syncPeers()
+	}
+	return ok
+}
+
+// classCase ties the driver's classification (finding classes, governing height) to the Coq
+// predicates of the partial theorem.
+func (r *run) classCase(st string, sp *hdrSpec, m *mHeader) {
+	cl := r.e.classify(sp)
+	g, ok := r.e.govHeight(sp.Height)
+	r.emit(fmt.Sprintf("(CClass %s %s %s %s %s %s %s)", st, coqHeader(m), hx.CoqBool(cl.stale), hx.CoqBool(cl.threshold),
+		hx.CoqBool(cl.dup), hx.CoqBool(cl.overwritten), coqOptN(ok, g)), map[string]interface{}{"classify": sp})
+}
+
+func Run(c *hx.Ctx) {
+	c.CoqModule("Corr.C32")
+	r := &run{c: c}
+	defer func() {
+		if r.e != nil {
+			r.e.close()
+		}
+	}()
+	var sc scenario
+	if c.ReplayInput(&sc) {
+		r.replay(sc)
+		r.flush()
+		return
+	}
+	for _, raw := range c.CorpusInputs() {
+		var s2 scenario
+		if json.Unmarshal(raw, &s2) == nil && s2.Op != "" {
+			r.replay(s2)
+		}
+	}
+	r.fresh("overwrite")
+	r.witnessOverwrite()
+	r.fresh("main")
+	r.witnesses()
+	r.randomEpochs(c.N(42, 400), c.N(16, 24))
+	r.vmsCases(c.N(300, 3000))
+	r.flush()
+}
+
+func (r *run) fresh(name string) {
+	if r.e != nil {
+		r.e.close()
+	}
+	e, err := newEnv(filepath.Join(r.c.OutDir, "ledger-"+name+fmt.Sprint(r.defs.n)))
+	if err != nil {
+		panic(err)
+	}
+	r.e = e
+	g := e.chain[0].m
+	r.st = r.defs.add(fmt.Sprintf("mk_store [%s] [(0, %d)] %s 0", coqHeader(g), g.Hash, coqPeers(e.peers)))
+}
+
+func (r *run) flush() {
+	r.c.CoqHeader(r.defs.b.String())
+	for _, pc := range r.cases {
+		r.c.Case(pc.term, pc.desc)
+	}
+}
+
+// replay rebuilds the store of a scenario on a fresh ledger and repeats the judged operation.
+func (r *run) replay(sc scenario) {
+	r.fresh("replay")
+	for _, st := range append(append([]step{}, sc.History...), step{Op: sc.Op, Spec: sc.Header}) {
+		switch st.Op {
+		case "add":
+			r.doAdd(st.Spec, "replay")
+		case "addblock":
+			r.doAddBlock(st.Spec, "replay")
+		default:
+			r.doVerify(st.Spec, "replay")
+		}
+	}
+}
+
+// vmsCases: signature.VerifyMultiSignature alone (the mask algorithm), on key lists with repeats.
+func (r *run) vmsCases(n int) {
+	c, e := r.c, r.e
+	for i := 0; i < n; i++ {
+		nk := c.Intn(7)
+		var keys []int
+		for j := 0; j < nk; j++ {
+			if j > 0 && c.Intn(4) == 0 {
+				keys = append(keys, keys[c.Intn(j)])
+			} else {
+				keys = append(keys, 1+c.Intn(10))
+			}
+		}
+		m := c.Intn(nk+3) - 1
+		sp := hdrSpec{Height: 1, PrevHeight: 0, Time: 1, Bks: keys, Salt: uint64(1000000 + i)}
+		ns := c.Intn(nk + 3)
+		for j := 0; j < ns; j++ {
+			sp.Sigs = append(sp.Sigs, r.randSig(keys, []int{1, 2, 3, 4, 5, 6, 7, 8, 9, 10}, j))
+		}
+		h, mh := e.build(&sp)
+		hash := h.Hash()
+		var err error
+		panicked, _ := hx.Recover(func() { err = signature.VerifyMultiSignature(hash[:], h.Bookkeepers, m, h.SigData) })
+		c.Eval()
+		code := errCode(err, panicked)
+		c.Count("vms:" + code)
+		r.emit(fmt.Sprintf("(CVms %d %s %s %s %s)", mh.Hash, coqKeys(keys), hx.CoqZ(int64(m)), coqSigs(mh.Sigs), code),
+			map[string]interface{}{"vms": sp, "m": m})
+		if code == "KOk" && m > 0 {
+			// oracle on the implementation: an accepting run has >= m decodable signatures each
+			// valid under a listed key
+			valid := 0
+			for j := 0; j < m && j < len(h.SigData); j++ {
+				for _, k := range keys {
+					if e.realVerify(k, hash[:], h.SigData[j]) {
+						valid++
+						break
+					}
+				}
+			}
+			if valid < m {
+				c.Fail("vms:unsigned-slot", "VerifyMultiSignature accepted with fewer than m valid signatures among the first m",
+					map[string]interface{}{"vms": sp, "m": m}, valid, m)
+			}
+			b, _ := json.Marshal(sp)
+			c.Nontrivial("vms" + string(b))
+		}
+	}
+}
